@@ -241,8 +241,12 @@ func c13Cmd(args []string) error {
 	}
 
 	pick := func(s []string) string { return s[rng.Intn(len(s))] }
-	ids := []string{"42", "forbidden", "a%5Bb%5D", "x~y", "%7Euser", "a%2Fb"}
-	decoded := map[string]string{"42": "42", "forbidden": "forbidden", "a%5Bb%5D": "a[b]", "x~y": "x~y", "%7Euser": "~user", "a%2Fb": "a/b"}
+	// "1+1=2": sub-delimiters of a path segment are literal (a '+' is no blank outside a query)
+	ids := []string{"42", "forbidden", "a%5Bb%5D", "x~y", "%7Euser", "a%2Fb", "1+1=2", "a%2Bb+c"}
+	decoded := map[string]string{
+		"42": "42", "forbidden": "forbidden", "a%5Bb%5D": "a[b]", "x~y": "x~y", "%7Euser": "~user", "a%2Fb": "a/b",
+		"1+1=2": "1+1=2", "a%2Bb+c": "a+b+c",
+	}
 
 	for i := 0; i < *n; i++ {
 		id := pick(ids)
@@ -254,7 +258,7 @@ func c13Cmd(args []string) error {
 
 		switch rng.Intn(3) {
 		case 0:
-			rest := pick([]string{"one", "one/two", "x/%5By%5D/z"})
+			rest := pick([]string{"one", "one/two", "x/%5By%5D/z", "p+q/r"})
 			path = "/api/" + id + "/items/" + rest
 			r, _ := url.PathUnescape(rest)
 			caps = map[string]string{"id": decoded[id], "rest": r}
@@ -262,7 +266,7 @@ func c13Cmd(args []string) error {
 			path = "/api/" + id
 			caps = map[string]string{"id": decoded[id]}
 		default:
-			name := pick([]string{"report.pdf", "a%20b.txt"})
+			name := pick([]string{"report.pdf", "a%20b.txt", "c+d.txt"})
 			path = "/files/" + id + "/" + name
 			nm, _ := url.PathUnescape(name)
 			caps = map[string]string{"id": decoded[id], "name": nm}
